@@ -70,59 +70,61 @@ Record state := mkState {
   ended : list id;
   finished : list (id * result);
   failures : nat;
-  postb : nat }.
+  postb : nat;
+  failedids : list id }.
 
 Definition set_queue (v : list id) (s : state) : state :=
-  mkState v (qstop s) (store s) (refs s) (closed s) (idle s) (exited s) (holding s) (cflush s) (current s) (workers s) (works s) (timer s) (bclosed s) (rstop s) (pc s) (accepted s) (accpre s) (late s) (taken s) (begun s) (ended s) (finished s) (failures s) (postb s).
+  mkState v (qstop s) (store s) (refs s) (closed s) (idle s) (exited s) (holding s) (cflush s) (current s) (workers s) (works s) (timer s) (bclosed s) (rstop s) (pc s) (accepted s) (accpre s) (late s) (taken s) (begun s) (ended s) (finished s) (failures s) (postb s) (failedids s).
 Definition set_qstop (v : bool) (s : state) : state :=
-  mkState (queue s) v (store s) (refs s) (closed s) (idle s) (exited s) (holding s) (cflush s) (current s) (workers s) (works s) (timer s) (bclosed s) (rstop s) (pc s) (accepted s) (accpre s) (late s) (taken s) (begun s) (ended s) (finished s) (failures s) (postb s).
+  mkState (queue s) v (store s) (refs s) (closed s) (idle s) (exited s) (holding s) (cflush s) (current s) (workers s) (works s) (timer s) (bclosed s) (rstop s) (pc s) (accepted s) (accpre s) (late s) (taken s) (begun s) (ended s) (finished s) (failures s) (postb s) (failedids s).
 Definition set_store (v : list id) (s : state) : state :=
-  mkState (queue s) (qstop s) v (refs s) (closed s) (idle s) (exited s) (holding s) (cflush s) (current s) (workers s) (works s) (timer s) (bclosed s) (rstop s) (pc s) (accepted s) (accpre s) (late s) (taken s) (begun s) (ended s) (finished s) (failures s) (postb s).
+  mkState (queue s) (qstop s) v (refs s) (closed s) (idle s) (exited s) (holding s) (cflush s) (current s) (workers s) (works s) (timer s) (bclosed s) (rstop s) (pc s) (accepted s) (accpre s) (late s) (taken s) (begun s) (ended s) (finished s) (failures s) (postb s) (failedids s).
 Definition set_refs (v : nat) (s : state) : state :=
-  mkState (queue s) (qstop s) (store s) v (closed s) (idle s) (exited s) (holding s) (cflush s) (current s) (workers s) (works s) (timer s) (bclosed s) (rstop s) (pc s) (accepted s) (accpre s) (late s) (taken s) (begun s) (ended s) (finished s) (failures s) (postb s).
+  mkState (queue s) (qstop s) (store s) v (closed s) (idle s) (exited s) (holding s) (cflush s) (current s) (workers s) (works s) (timer s) (bclosed s) (rstop s) (pc s) (accepted s) (accpre s) (late s) (taken s) (begun s) (ended s) (finished s) (failures s) (postb s) (failedids s).
 Definition set_closed (v : bool) (s : state) : state :=
-  mkState (queue s) (qstop s) (store s) (refs s) v (idle s) (exited s) (holding s) (cflush s) (current s) (workers s) (works s) (timer s) (bclosed s) (rstop s) (pc s) (accepted s) (accpre s) (late s) (taken s) (begun s) (ended s) (finished s) (failures s) (postb s).
+  mkState (queue s) (qstop s) (store s) (refs s) v (idle s) (exited s) (holding s) (cflush s) (current s) (workers s) (works s) (timer s) (bclosed s) (rstop s) (pc s) (accepted s) (accpre s) (late s) (taken s) (begun s) (ended s) (finished s) (failures s) (postb s) (failedids s).
 Definition set_idle (v : nat) (s : state) : state :=
-  mkState (queue s) (qstop s) (store s) (refs s) (closed s) v (exited s) (holding s) (cflush s) (current s) (workers s) (works s) (timer s) (bclosed s) (rstop s) (pc s) (accepted s) (accpre s) (late s) (taken s) (begun s) (ended s) (finished s) (failures s) (postb s).
+  mkState (queue s) (qstop s) (store s) (refs s) (closed s) v (exited s) (holding s) (cflush s) (current s) (workers s) (works s) (timer s) (bclosed s) (rstop s) (pc s) (accepted s) (accpre s) (late s) (taken s) (begun s) (ended s) (finished s) (failures s) (postb s) (failedids s).
 Definition set_exited (v : nat) (s : state) : state :=
-  mkState (queue s) (qstop s) (store s) (refs s) (closed s) (idle s) v (holding s) (cflush s) (current s) (workers s) (works s) (timer s) (bclosed s) (rstop s) (pc s) (accepted s) (accpre s) (late s) (taken s) (begun s) (ended s) (finished s) (failures s) (postb s).
+  mkState (queue s) (qstop s) (store s) (refs s) (closed s) (idle s) v (holding s) (cflush s) (current s) (workers s) (works s) (timer s) (bclosed s) (rstop s) (pc s) (accepted s) (accpre s) (late s) (taken s) (begun s) (ended s) (finished s) (failures s) (postb s) (failedids s).
 Definition set_holding (v : list id) (s : state) : state :=
-  mkState (queue s) (qstop s) (store s) (refs s) (closed s) (idle s) (exited s) v (cflush s) (current s) (workers s) (works s) (timer s) (bclosed s) (rstop s) (pc s) (accepted s) (accpre s) (late s) (taken s) (begun s) (ended s) (finished s) (failures s) (postb s).
+  mkState (queue s) (qstop s) (store s) (refs s) (closed s) (idle s) (exited s) v (cflush s) (current s) (workers s) (works s) (timer s) (bclosed s) (rstop s) (pc s) (accepted s) (accpre s) (late s) (taken s) (begun s) (ended s) (finished s) (failures s) (postb s) (failedids s).
 Definition set_cflush (v : list (list id)) (s : state) : state :=
-  mkState (queue s) (qstop s) (store s) (refs s) (closed s) (idle s) (exited s) (holding s) v (current s) (workers s) (works s) (timer s) (bclosed s) (rstop s) (pc s) (accepted s) (accpre s) (late s) (taken s) (begun s) (ended s) (finished s) (failures s) (postb s).
+  mkState (queue s) (qstop s) (store s) (refs s) (closed s) (idle s) (exited s) (holding s) v (current s) (workers s) (works s) (timer s) (bclosed s) (rstop s) (pc s) (accepted s) (accpre s) (late s) (taken s) (begun s) (ended s) (finished s) (failures s) (postb s) (failedids s).
 Definition set_current (v : list id) (s : state) : state :=
-  mkState (queue s) (qstop s) (store s) (refs s) (closed s) (idle s) (exited s) (holding s) (cflush s) v (workers s) (works s) (timer s) (bclosed s) (rstop s) (pc s) (accepted s) (accpre s) (late s) (taken s) (begun s) (ended s) (finished s) (failures s) (postb s).
+  mkState (queue s) (qstop s) (store s) (refs s) (closed s) (idle s) (exited s) (holding s) (cflush s) v (workers s) (works s) (timer s) (bclosed s) (rstop s) (pc s) (accepted s) (accpre s) (late s) (taken s) (begun s) (ended s) (finished s) (failures s) (postb s) (failedids s).
 Definition set_workers (v : nat) (s : state) : state :=
-  mkState (queue s) (qstop s) (store s) (refs s) (closed s) (idle s) (exited s) (holding s) (cflush s) (current s) v (works s) (timer s) (bclosed s) (rstop s) (pc s) (accepted s) (accpre s) (late s) (taken s) (begun s) (ended s) (finished s) (failures s) (postb s).
+  mkState (queue s) (qstop s) (store s) (refs s) (closed s) (idle s) (exited s) (holding s) (cflush s) (current s) v (works s) (timer s) (bclosed s) (rstop s) (pc s) (accepted s) (accpre s) (late s) (taken s) (begun s) (ended s) (finished s) (failures s) (postb s) (failedids s).
 Definition set_works (v : list work) (s : state) : state :=
-  mkState (queue s) (qstop s) (store s) (refs s) (closed s) (idle s) (exited s) (holding s) (cflush s) (current s) (workers s) v (timer s) (bclosed s) (rstop s) (pc s) (accepted s) (accpre s) (late s) (taken s) (begun s) (ended s) (finished s) (failures s) (postb s).
+  mkState (queue s) (qstop s) (store s) (refs s) (closed s) (idle s) (exited s) (holding s) (cflush s) (current s) (workers s) v (timer s) (bclosed s) (rstop s) (pc s) (accepted s) (accpre s) (late s) (taken s) (begun s) (ended s) (finished s) (failures s) (postb s) (failedids s).
 Definition set_timer (v : timer_st) (s : state) : state :=
-  mkState (queue s) (qstop s) (store s) (refs s) (closed s) (idle s) (exited s) (holding s) (cflush s) (current s) (workers s) (works s) v (bclosed s) (rstop s) (pc s) (accepted s) (accpre s) (late s) (taken s) (begun s) (ended s) (finished s) (failures s) (postb s).
+  mkState (queue s) (qstop s) (store s) (refs s) (closed s) (idle s) (exited s) (holding s) (cflush s) (current s) (workers s) (works s) v (bclosed s) (rstop s) (pc s) (accepted s) (accpre s) (late s) (taken s) (begun s) (ended s) (finished s) (failures s) (postb s) (failedids s).
 Definition set_bclosed (v : bool) (s : state) : state :=
-  mkState (queue s) (qstop s) (store s) (refs s) (closed s) (idle s) (exited s) (holding s) (cflush s) (current s) (workers s) (works s) (timer s) v (rstop s) (pc s) (accepted s) (accpre s) (late s) (taken s) (begun s) (ended s) (finished s) (failures s) (postb s).
+  mkState (queue s) (qstop s) (store s) (refs s) (closed s) (idle s) (exited s) (holding s) (cflush s) (current s) (workers s) (works s) (timer s) v (rstop s) (pc s) (accepted s) (accpre s) (late s) (taken s) (begun s) (ended s) (finished s) (failures s) (postb s) (failedids s).
 Definition set_rstop (v : bool) (s : state) : state :=
-  mkState (queue s) (qstop s) (store s) (refs s) (closed s) (idle s) (exited s) (holding s) (cflush s) (current s) (workers s) (works s) (timer s) (bclosed s) v (pc s) (accepted s) (accpre s) (late s) (taken s) (begun s) (ended s) (finished s) (failures s) (postb s).
+  mkState (queue s) (qstop s) (store s) (refs s) (closed s) (idle s) (exited s) (holding s) (cflush s) (current s) (workers s) (works s) (timer s) (bclosed s) v (pc s) (accepted s) (accpre s) (late s) (taken s) (begun s) (ended s) (finished s) (failures s) (postb s) (failedids s).
 Definition set_pc (v : pc_t) (s : state) : state :=
-  mkState (queue s) (qstop s) (store s) (refs s) (closed s) (idle s) (exited s) (holding s) (cflush s) (current s) (workers s) (works s) (timer s) (bclosed s) (rstop s) v (accepted s) (accpre s) (late s) (taken s) (begun s) (ended s) (finished s) (failures s) (postb s).
+  mkState (queue s) (qstop s) (store s) (refs s) (closed s) (idle s) (exited s) (holding s) (cflush s) (current s) (workers s) (works s) (timer s) (bclosed s) (rstop s) v (accepted s) (accpre s) (late s) (taken s) (begun s) (ended s) (finished s) (failures s) (postb s) (failedids s).
 Definition set_accepted (v : list id) (s : state) : state :=
-  mkState (queue s) (qstop s) (store s) (refs s) (closed s) (idle s) (exited s) (holding s) (cflush s) (current s) (workers s) (works s) (timer s) (bclosed s) (rstop s) (pc s) v (accpre s) (late s) (taken s) (begun s) (ended s) (finished s) (failures s) (postb s).
+  mkState (queue s) (qstop s) (store s) (refs s) (closed s) (idle s) (exited s) (holding s) (cflush s) (current s) (workers s) (works s) (timer s) (bclosed s) (rstop s) (pc s) v (accpre s) (late s) (taken s) (begun s) (ended s) (finished s) (failures s) (postb s) (failedids s).
 Definition set_accpre (v : list id) (s : state) : state :=
-  mkState (queue s) (qstop s) (store s) (refs s) (closed s) (idle s) (exited s) (holding s) (cflush s) (current s) (workers s) (works s) (timer s) (bclosed s) (rstop s) (pc s) (accepted s) v (late s) (taken s) (begun s) (ended s) (finished s) (failures s) (postb s).
+  mkState (queue s) (qstop s) (store s) (refs s) (closed s) (idle s) (exited s) (holding s) (cflush s) (current s) (workers s) (works s) (timer s) (bclosed s) (rstop s) (pc s) (accepted s) v (late s) (taken s) (begun s) (ended s) (finished s) (failures s) (postb s) (failedids s).
 Definition set_late (v : list id) (s : state) : state :=
-  mkState (queue s) (qstop s) (store s) (refs s) (closed s) (idle s) (exited s) (holding s) (cflush s) (current s) (workers s) (works s) (timer s) (bclosed s) (rstop s) (pc s) (accepted s) (accpre s) v (taken s) (begun s) (ended s) (finished s) (failures s) (postb s).
+  mkState (queue s) (qstop s) (store s) (refs s) (closed s) (idle s) (exited s) (holding s) (cflush s) (current s) (workers s) (works s) (timer s) (bclosed s) (rstop s) (pc s) (accepted s) (accpre s) v (taken s) (begun s) (ended s) (finished s) (failures s) (postb s) (failedids s).
 Definition set_taken (v : list id) (s : state) : state :=
-  mkState (queue s) (qstop s) (store s) (refs s) (closed s) (idle s) (exited s) (holding s) (cflush s) (current s) (workers s) (works s) (timer s) (bclosed s) (rstop s) (pc s) (accepted s) (accpre s) (late s) v (begun s) (ended s) (finished s) (failures s) (postb s).
+  mkState (queue s) (qstop s) (store s) (refs s) (closed s) (idle s) (exited s) (holding s) (cflush s) (current s) (workers s) (works s) (timer s) (bclosed s) (rstop s) (pc s) (accepted s) (accpre s) (late s) v (begun s) (ended s) (finished s) (failures s) (postb s) (failedids s).
 Definition set_begun (v : list id) (s : state) : state :=
-  mkState (queue s) (qstop s) (store s) (refs s) (closed s) (idle s) (exited s) (holding s) (cflush s) (current s) (workers s) (works s) (timer s) (bclosed s) (rstop s) (pc s) (accepted s) (accpre s) (late s) (taken s) v (ended s) (finished s) (failures s) (postb s).
+  mkState (queue s) (qstop s) (store s) (refs s) (closed s) (idle s) (exited s) (holding s) (cflush s) (current s) (workers s) (works s) (timer s) (bclosed s) (rstop s) (pc s) (accepted s) (accpre s) (late s) (taken s) v (ended s) (finished s) (failures s) (postb s) (failedids s).
 Definition set_ended (v : list id) (s : state) : state :=
-  mkState (queue s) (qstop s) (store s) (refs s) (closed s) (idle s) (exited s) (holding s) (cflush s) (current s) (workers s) (works s) (timer s) (bclosed s) (rstop s) (pc s) (accepted s) (accpre s) (late s) (taken s) (begun s) v (finished s) (failures s) (postb s).
+  mkState (queue s) (qstop s) (store s) (refs s) (closed s) (idle s) (exited s) (holding s) (cflush s) (current s) (workers s) (works s) (timer s) (bclosed s) (rstop s) (pc s) (accepted s) (accpre s) (late s) (taken s) (begun s) v (finished s) (failures s) (postb s) (failedids s).
 Definition set_finished (v : list (id * result)) (s : state) : state :=
-  mkState (queue s) (qstop s) (store s) (refs s) (closed s) (idle s) (exited s) (holding s) (cflush s) (current s) (workers s) (works s) (timer s) (bclosed s) (rstop s) (pc s) (accepted s) (accpre s) (late s) (taken s) (begun s) (ended s) v (failures s) (postb s).
+  mkState (queue s) (qstop s) (store s) (refs s) (closed s) (idle s) (exited s) (holding s) (cflush s) (current s) (workers s) (works s) (timer s) (bclosed s) (rstop s) (pc s) (accepted s) (accpre s) (late s) (taken s) (begun s) (ended s) v (failures s) (postb s) (failedids s).
 Definition set_failures (v : nat) (s : state) : state :=
-  mkState (queue s) (qstop s) (store s) (refs s) (closed s) (idle s) (exited s) (holding s) (cflush s) (current s) (workers s) (works s) (timer s) (bclosed s) (rstop s) (pc s) (accepted s) (accpre s) (late s) (taken s) (begun s) (ended s) (finished s) v (postb s).
+  mkState (queue s) (qstop s) (store s) (refs s) (closed s) (idle s) (exited s) (holding s) (cflush s) (current s) (workers s) (works s) (timer s) (bclosed s) (rstop s) (pc s) (accepted s) (accpre s) (late s) (taken s) (begun s) (ended s) (finished s) v (postb s) (failedids s).
 Definition set_postb (v : nat) (s : state) : state :=
-  mkState (queue s) (qstop s) (store s) (refs s) (closed s) (idle s) (exited s) (holding s) (cflush s) (current s) (workers s) (works s) (timer s) (bclosed s) (rstop s) (pc s) (accepted s) (accpre s) (late s) (taken s) (begun s) (ended s) (finished s) (failures s) v.
-
+  mkState (queue s) (qstop s) (store s) (refs s) (closed s) (idle s) (exited s) (holding s) (cflush s) (current s) (workers s) (works s) (timer s) (bclosed s) (rstop s) (pc s) (accepted s) (accpre s) (late s) (taken s) (begun s) (ended s) (finished s) (failures s) v (failedids s).
+Definition set_failedids (v : list id) (s : state) : state :=
+  mkState (queue s) (qstop s) (store s) (refs s) (closed s) (idle s) (exited s) (holding s) (cflush s) (current s) (workers s) (works s) (timer s) (bclosed s) (rstop s) (pc s) (accepted s) (accpre s) (late s) (taken s) (begun s) (ended s) (finished s) (failures s) (postb s) v.
 
 (* ---- list helpers ------------------------------------------------------------------------- *)
 Fixpoint remove_nth {A} (k : nat) (l : list A) : list A :=
@@ -187,7 +189,7 @@ Definition init (c : cfg) : state :=
           (c_ncons c) 0 [] []
           [] (c_nwork c) [] (if c_batch c && c_timer c then TRun else TNone) false
           false PNot
-          [] [] [] [] [] [] [] 0 0.
+          [] [] [] [] [] [] [] 0 0 [].
 
 Definition new_work (b : list id) (bycons : bool) (s : state) : state :=
   set_works (works s ++ [mkWork b SReady bycons]) s.
@@ -250,7 +252,8 @@ Definition step (c : cfg) (s : state) (l : label) : option state :=
           match w_st w with
           | SInCall => Some (set_works (upd_nth k (set_st (end_state c o)) (works s))
                             (set_ended (w_ids w ++ ended s)
-                            (set_failures (if is_ok o then failures s else S (failures s)) s)))
+                            (set_failures (if is_ok o then failures s else S (failures s))
+                            (set_failedids (if is_ok o then failedids s else w_ids w ++ failedids s) s))))
           | _ => None
           end
       | None => None
@@ -377,10 +380,17 @@ Definition live (s : state) : nat :=
 Record hcfg := mkH {
   h_cfg : cfg;
   h_mode : nat;      (* retry: 0 off | 1 long back-off (never elapses) | 2 short back-off | 3 gives up at once *)
-  h_min : nat }.     (* batch min_size in items *)
+  h_min : nat;       (* batch min_size in items *)
+  h_wait : bool }.   (* wait_for_result: Offer returns (with the export's result) only when Done is called *)
 
 Inductive action := AOffer (i : id) (sz : nat) | ARelease (i : id) (o : outcome) | AShutdown
-                  | ATimerFire.   (* the harness makes the batcher's flush timer fire now *)
+                  | ATimerFire    (* the harness makes the batcher's flush timer fire now *)
+                  | AShutdownRace (m : nat).
+(* AShutdownRace: Shutdown is called while a work sits in a long back-off and the persistent queue still holds
+   requests.  close(stopCh) wakes the back-off; the freed consumer then races with persistentQueue.Shutdown
+   for the next request — both orders are legal.  The harness reports what it saw: m = number of ids whose
+   FIRST export begins after the call.  The ids already taken (current batch, ...) account for some of them;
+   the rest, k, are the Reads that won the race: the scheduler lets exactly k LTake happen before LQueueStop. *)
 
 Definition event := (nat * list id)%type.
 (* kinds: 0 export begins (ids) | 1 export ends (ids) | 2 Shutdown returned | 3 wrapped exporter shut down
@@ -446,29 +456,90 @@ Fixpoint first_enabled (c : cfg) (s : state) (ls : list label) : option (label *
   | l :: r => match step c s l with Some s' => Some (l, s') | None => first_enabled c s r end
   end.
 
-Definition events_of (l : label) (s s' : state) : list event :=
+Definition events_of (hc : hcfg) (l : label) (s s' : state) : list event :=
   (match l with
    | LBegin k => match nth_error (works s) k with Some w => [(0, sort_nat (w_ids w))] | None => [] end
    | LEnd k _ => match nth_error (works s) k with Some w => [(1, sort_nat (w_ids w))] | None => [] end
    | LReturn => [(2, [])]
    | LInnerShutdown => [(3, [])]
-   | LOffer i => [(4, [i])]
+   | LOffer i => if h_wait hc then [] else [(4, [i])]
    | LOfferFail i => [(5, [i])]
+   | LDone k =>
+       if h_wait hc then
+         match nth_error (works s) k with
+         | Some w => match w_st w with
+                     | SDone RSuccess => map (fun i => (4, [i])) (w_ids w)
+                     | SDone _ => map (fun i => (5, [i])) (w_ids w)
+                     | _ => []
+                     end
+         | None => []
+         end
+       else []
    | _ => []
    end) ++ (if negb (closed s) && closed s' then [(6, [])] else []).
 
 (* run internal labels to quiescence; returns the labels taken, the events and the final state *)
-Fixpoint settle (fuel : nat) (hc : hcfg) (sizes : list (id * nat)) (s : state)
+Fixpoint settle_f (allow : label -> bool) (fuel : nat) (hc : hcfg) (sizes : list (id * nat)) (s : state)
   : list label * list event * state :=
   match fuel with
   | 0 => ([], [], s)
   | S f =>
-      match first_enabled (h_cfg hc) s (candidates hc sizes s) with
+      match first_enabled (h_cfg hc) s (filter allow (candidates hc sizes s)) with
       | Some (l, s') =>
-          let '(ls, evs, s'') := settle f hc sizes s' in
-          (l :: ls, events_of l s s' ++ evs, s'')
+          let '(ls, evs, s'') := settle_f allow f hc sizes s' in
+          (l :: ls, events_of hc l s s' ++ evs, s'')
       | None => ([], [], s)
       end
+  end.
+
+Definition settle := settle_f (fun _ => true).
+
+Definition not_take_stop (l : label) : bool := match l with LTake | LQueueStop => false | _ => true end.
+
+Definition settle_fuel : nat := 400.
+
+(* everything except Read and the queue's stop runs to quiescence; then one Read wins; k times *)
+Fixpoint race_takes (k : nat) (hc : hcfg) (sizes : list (id * nat)) (s : state)
+  : option (list label * list event * state) :=
+  let '(ls, evs, s1) := settle_f not_take_stop settle_fuel hc sizes s in
+  match k with
+  | 0 => Some (ls, evs, s1)
+  | S k' =>
+      match step (h_cfg hc) s1 LTake with
+      | Some s2 =>
+          match race_takes k' hc sizes s2 with
+          | Some (ls', evs', s3) => Some (ls ++ LTake :: ls', evs ++ evs', s3)
+          | None => None
+          end
+      | None => None
+      end
+  end.
+
+Definition unbegun_taken (s : state) : nat :=
+  length (holding s) + length (current s) + fold_right (fun b a => length b + a) 0 (cflush s)
+  + match timer s with TFlush b => length b | _ => 0 end.
+
+Definition exec_race (hc : hcfg) (sizes : list (id * nat)) (s : state) (m : nat)
+  : option (list label * list event * state) :=
+  let c := h_cfg hc in
+  match step c s LShutCall with
+  | Some s1 =>
+      match step c s1 LCloseStop with
+      | Some s2 =>
+          match race_takes (m - unbegun_taken s) hc sizes s2 with
+          | Some (ls3, evs3, s3) =>
+              match step c s3 LQueueStop with
+              | Some s4 =>
+                  let '(ls5, evs5, s5) := settle settle_fuel hc sizes s4 in
+                  Some (LShutCall :: LCloseStop :: ls3 ++ LQueueStop :: ls5,
+                        evs3 ++ events_of hc LQueueStop s3 s4 ++ evs5, s5)
+              | None => None
+              end
+          | None => None
+          end
+      | None => None
+      end
+  | None => None
   end.
 
 Fixpoint find_call (i : id) (k : nat) (ws : list work) : option nat :=
@@ -488,22 +559,29 @@ Definition action_label (hc : hcfg) (s : state) (a : action) : option label :=
   | ARelease i o => option_map (fun k => LEnd k o) (find_call i 0 (works s))
   | AShutdown => Some LShutCall
   | ATimerFire => Some LTimerFire
+  | AShutdownRace _ => None
   end.
-
-Definition settle_fuel : nat := 400.
 
 Definition exec_action (hc : hcfg) (sizes : list (id * nat)) (s : state) (a : action)
   : option (list label * list event * state * list (id * nat)) :=
   let sizes' := match a with AOffer i sz => (i, sz) :: sizes | _ => sizes end in
+  match a with
+  | AShutdownRace m =>
+      match exec_race hc sizes s m with
+      | Some (ls, evs, s2) => Some (ls, sort_ev evs, s2, sizes)
+      | None => None
+      end
+  | _ =>
   match action_label hc s a with
   | Some l =>
       match step (h_cfg hc) s l with
       | Some s1 =>
           let '(ls, evs, s2) := settle settle_fuel hc sizes' s1 in
-          Some (l :: ls, sort_ev (events_of l s s1 ++ evs), s2, sizes')
+          Some (l :: ls, sort_ev (events_of hc l s s1 ++ evs), s2, sizes')
       | None => None
       end
   | None => None
+  end
   end.
 
 Fixpoint exec (hc : hcfg) (sizes : list (id * nat)) (s : state) (acts : list action)
